@@ -76,7 +76,7 @@ MaxI(x, y) == IF x > y THEN x ELSE y
 
 NoPar == [gw |-> 0, gi |-> 0, ri |-> 0, pt |-> 0, st |-> 0, mint |-> 0, slack |-> 0, rslack |-> 0,
           dupmin |-> [a \in Alerts |-> 0], dupmax |-> 0, repmax |-> 0, late |-> 0, ptol |-> 0, maint |-> 0, dupfloor |-> 0, n |-> 0, solo |-> FALSE, run |-> "", alerts |-> {},
-          base |-> 0, hook |-> 0, rltol |-> 0, np |-> [a \in Alerts |-> 0], full |-> [a \in Alerts |-> FALSE]]
+          base |-> 0, hook |-> 0, inflight |-> 0, rltol |-> 0, np |-> [a \in Alerts |-> 0], full |-> [a \in Alerts |-> FALSE]]
 
 Blank ==
   /\ now' = 0
@@ -133,7 +133,7 @@ Cfg ==
              late |-> ev.late, ptol |-> ev.ptol, maint |-> ev.maint, dupfloor |-> ev.dupfloor,
              n |-> ev.n, solo |-> ev.solo, run |-> ev.run, alerts |-> ToSetOf(ev.alerts),
              base |-> ev.pt,                                   \* no latency measured yet: NoDuplicate gives no verdict
-             rltol |-> ev.rltol, hook |-> ev.hook + ev.n * ev.stagger, np |-> [a \in Alerts |-> 0], full |-> [a \in Alerts |-> FALSE]]
+             rltol |-> ev.rltol, hook |-> ev.hook + ev.n * ev.stagger, inflight |-> ev.hook + ev.n * ev.stagger, np |-> [a \in Alerts |-> 0], full |-> [a \in Alerts |-> FALSE]]
   /\ healthy' = ~ev.solo
 
 EvStart ==
